@@ -101,7 +101,14 @@ pub broadcast axiom fn axiom_string_eq_string(a: String, b: String)
 pub broadcast axiom fn axiom_string_obeys_eq_string()
     ensures #[trigger] <String as vstd::std_specs::cmp::PartialEqSpec<String>>::obeys_eq_spec();
 
+// a str never exceeds isize::MAX bytes (Rust allocation invariant); vstd's `str::len` spec is clipped to usize
+pub broadcast axiom fn axiom_str_len_bound(s: &str)
+    ensures #[trigger] s.spec_bytes().len() <= isize::MAX as nat;
+pub broadcast axiom fn axiom_chars_le_bytes(s: &str)
+    ensures #[trigger] s@.len() <= s.spec_bytes().len();
+
 pub broadcast group group_vx_axioms {
+    axiom_str_len_bound, axiom_chars_le_bytes,
     axiom_uni_alphabetic_ascii, axiom_uni_numeric_ascii, axiom_uni_uppercase_ascii, axiom_uni_lowercase_ascii,
     axiom_string_eq_str, axiom_string_obeys_eq_str, axiom_string_eq_refstr, axiom_string_obeys_eq_refstr,
     axiom_str_eq_string, axiom_str_obeys_eq_string, axiom_refstr_eq_string, axiom_refstr_obeys_eq_string,
